@@ -81,6 +81,7 @@ type oblResult struct {
 	Findings []KnownFinding
 	Replay   string
 	Confirmed string // replay outcome
+	Stage     string // which stage of decide() discharged it
 }
 
 // contractDirs lists package patterns that contain contract files.
@@ -139,6 +140,11 @@ func (o *Obligation) ScriptSeeded(extra ...*Term) string {
 // asserts builds the query; sliced=false keeps every assumption (used for replay
 // models, whose inputs must satisfy all preconditions).
 func (o *Obligation) asserts(sliced bool, extra ...*Term) []*Term {
+	// Skolem constants are numbered per query, not per process: the text of a query
+	// then does not depend on how the worker goroutines interleave, and a proof
+	// found once is found again (callers hold termMu; nothing keeps a skolemised
+	// term beyond the query it was made for).
+	skCounter = 0
 	var asserts []*Term
 	if sliced && o.Block != nil && o.Block.Parent() == o.Gen.Fn {
 		// A definition made in a block that cannot reach the program point is
@@ -243,6 +249,9 @@ func (o *Obligation) asserts(sliced bool, extra ...*Term) []*Term {
 			asserts[i] = Subst(a, o.caseSub.Sub)
 		}
 	}
+	if o.eqProp {
+		asserts = propagateEqs(asserts)
+	}
 	sl := asserts
 	if sliced {
 		sl = sliceCOI(asserts, len(extra)+2)
@@ -296,6 +305,84 @@ func (o *Obligation) asserts(sliced bool, extra ...*Term) []*Term {
 		sl = o.Gen.typeGroundReads(sl)
 	}
 	return sl
+}
+
+// propagateEqs rewrites the assertions with the definitional equalities among
+// them: an assertion  (= (select A i) c)  with c a constant (the value an SSA
+// load was given) lets every other occurrence of the read be replaced by c.
+// After that a path that speaks of t.currentSegment and a callee contract that
+// was stated about the loaded pointer use the same terms, read-over-write folds
+// syntactically, and goal-directed instantiation finds the instances that E-matching
+// otherwise has to find modulo the equality. Sound for proving: each new assertion
+// follows from the old set (rewriting by asserted equalities), the defining
+// equalities stay (with their own reads rewritten below the top only).
+func propagateEqs(as []*Term) []*Term {
+	occurs := func(c, in *Term) bool {
+		seen := map[*Term]bool{}
+		var rec func(t *Term) bool
+		rec = func(t *Term) bool {
+			if t == c {
+				return true
+			}
+			if seen[t] {
+				return false
+			}
+			seen[t] = true
+			for _, a := range t.Args {
+				if rec(a) {
+					return true
+				}
+			}
+			return false
+		}
+		return rec(in)
+	}
+	for round := 0; round < 4; round++ {
+		m := map[*Term]*Term{}
+		def := map[int]bool{}
+		for i, a := range as {
+			if a.Op != "=" || len(a.Args) != 2 {
+				continue
+			}
+			l, r := a.Args[0], a.Args[1]
+			if l.Op == "const" && r.Op == "select" {
+				l, r = r, l
+			}
+			if l.Op != "select" || r.Op != "const" || occurs(r, l) {
+				continue
+			}
+			if _, dup := m[l]; dup {
+				continue
+			}
+			m[l] = r
+			def[i] = true
+		}
+		if len(m) == 0 {
+			break
+		}
+		changed := false
+		out := make([]*Term, len(as))
+		for i, a := range as {
+			if def[i] {
+				l, r := a.Args[0], a.Args[1]
+				if l.Op == "const" && r.Op == "select" {
+					l, r = r, l
+				}
+				l2 := Select(Subst(l.Args[0], m), Subst(l.Args[1], m))
+				out[i] = Eq(l2, r)
+			} else {
+				out[i] = Subst(a, m)
+			}
+			if out[i] != a {
+				changed = true
+			}
+		}
+		as = out
+		if !changed {
+			break
+		}
+	}
+	return as
 }
 
 // sliceCOI keeps the assertions that share symbols (transitively) with the last
@@ -745,6 +832,7 @@ func RunCheck(opts *CheckOpts) int {
 	var slow []any
 	var knownLines []string
 	solverWins := map[string]int{}
+	stageWins := map[string]int{}
 	var totalMs, maxMs int64
 	replayDir := filepath.Join(opts.OutDir, "replays", prop)
 	for _, r := range reports {
@@ -771,6 +859,9 @@ func RunCheck(opts *CheckOpts) int {
 			continue
 		}
 		if o.MustSat {
+			if os.Getenv("VP_STAGES") != "" && r.Res != nil && (r.Res.Ms >= 1000 || r.Stage != "") {
+				fmt.Printf("STAGE vacuity-guard%s %s %dms\n", r.Stage, o.Name, r.Res.Ms)
+			}
 			if r.Status != "proved" {
 				fmt.Printf("BROKEN property=%s reason=vacuity guard %s: %s\n", prop, o.Name, r.Res.Status)
 				exit = 2
@@ -794,6 +885,10 @@ func RunCheck(opts *CheckOpts) int {
 		case "proved":
 			nDis++
 			solverWins[r.Res.Solver]++
+			stageWins[stageClass(r.Stage)]++
+			if os.Getenv("VP_STAGES") != "" && stageClass(r.Stage) != "ground" {
+				fmt.Printf("STAGE %s %s %dms\n", r.Stage, o.Name, r.Res.Ms)
+			}
 			if len(samples) < 6 {
 				samples = append(samples, map[string]any{"obligation": o.Name, "kind": o.Kind, "clause": o.Clause, "pos": o.Pos, "solver": r.Res.Solver, "ms": r.Res.Ms})
 			}
@@ -873,6 +968,7 @@ func RunCheck(opts *CheckOpts) int {
 		}
 	}
 	boundedGlobal = boundedEv
+	stageGlobal = stageWins
 	vacuousGlobal = vacuous
 	fmt.Printf("property %s: %d functions under contract, %d obligations, %d discharged, %d known findings, %.1fs\n", prop, len(reports), nObl, nDis, len(knownLines), time.Since(start).Seconds())
 
@@ -880,6 +976,26 @@ func RunCheck(opts *CheckOpts) int {
 		writeEvidence(opts, prog, reports, results, nObl, nDis, samples, knownLines, solverWins, totalMs, maxMs, exit, time.Since(start).Seconds())
 	}
 	return exit
+}
+
+// stageClass groups the stages of decide(): "ground" (quantifier-free after
+// goal-directed instantiation), "seeded" (instances plus the residual
+// quantifiers, z3-new alone), "split" (per incoming edge / per append case,
+// ground or seeded), "race" (full query, all solvers and seeds), "retry".
+func stageClass(st string) string {
+	switch {
+	case strings.HasPrefix(st, "fam"), strings.HasPrefix(st, "ground"):
+		return "ground"
+	case st == "seeded":
+		return "seeded"
+	case strings.HasPrefix(st, "retry"):
+		return "retry"
+	case strings.HasSuffix(st, ":race"), st == "race":
+		return "race"
+	case strings.HasPrefix(st, "split:"), strings.HasPrefix(st, "race-split:"):
+		return "split"
+	}
+	return "other"
 }
 
 func sanitize(s string) string {
@@ -927,7 +1043,7 @@ func decide(o *Obligation, cfg *SolverCfg, known []KnownFinding, prop string, op
 			rg := SolveFirstOnly(cfg, sg)
 			if rg.Status == "unsat" {
 				rg.Solver = "z3-new"
-				return &oblResult{O: o, Res: rg, Status: "proved"}
+				return &oblResult{O: o, Res: rg, Status: "proved", Stage: fmt.Sprintf("fam%d", lvl)}
 			}
 		}
 		// stage 0a: goal-directed instances only (no residual user quantifiers),
@@ -944,7 +1060,23 @@ func decide(o *Obligation, cfg *SolverCfg, known []KnownFinding, prop string, op
 			rg := SolveFirstOnly(cfg, sg)
 			if rg.Status == "unsat" {
 				rg.Solver = "z3-new"
-				return &oblResult{O: o, Res: rg, Status: "proved"}
+				return &oblResult{O: o, Res: rg, Status: "proved", Stage: fmt.Sprintf("ground%d", lvl)}
+			}
+		}
+		// stage 0b: the same after rewriting with the definitional equalities
+		for lvl := 1; lvl <= 2; lvl++ {
+			termMu.Lock()
+			o.seeded, o.ground, o.groundLevel, o.eqProp = true, true, lvl, true
+			sg := Script(o.asserts(true), true)
+			o.seeded, o.ground, o.groundLevel, o.eqProp = false, false, 0, false
+			termMu.Unlock()
+			if opts.KeepSMT != "" {
+				os.WriteFile(filepath.Join(opts.KeepSMT, fmt.Sprintf("%s.eqground%d.smt2", sanitize(o.Name), lvl)), []byte(sg), 0o644)
+			}
+			rg := SolveFirstOnly(cfg, sg)
+			if rg.Status == "unsat" {
+				rg.Solver = "z3-new"
+				return &oblResult{O: o, Res: rg, Status: "proved", Stage: fmt.Sprintf("ground-eq%d", lvl)}
 			}
 		}
 	}
@@ -961,12 +1093,12 @@ func decide(o *Obligation, cfg *SolverCfg, known []KnownFinding, prop string, op
 		if r0.Status == "unsat" {
 			r0.Solver = "z3-new"
 			if !cfg.CrossCheck {
-				return &oblResult{O: o, Res: r0, Status: "proved"}
+				return &oblResult{O: o, Res: r0, Status: "proved", Stage: "seeded"}
 			}
 		} else if r0.Status != "sat" && !cfg.CrossCheck {
 			// at a join block: decide per incoming edge before trying the monolithic query
 			if rs := decideSplit(o, cfg); rs != nil {
-				return &oblResult{O: o, Res: rs, Status: "proved"}
+				return &oblResult{O: o, Res: rs, Status: "proved", Stage: "split:" + rs.Stage}
 			}
 		}
 	}
@@ -981,6 +1113,21 @@ func decide(o *Obligation, cfg *SolverCfg, known []KnownFinding, prop string, op
 		return r
 	}
 	if o.MustSat {
+		// the vacuity guard wants a model; only "unsat" says the preconditions are
+		// contradictory, so an undecided query is retried with longer limits and
+		// other seeds before the guard is reported as not established
+		for ri, mult := range []int{3, 8} {
+			if res.Status == "sat" || res.Status == "unsat" {
+				break
+			}
+			cfgN := *cfg
+			cfgN.TimeoutS *= mult
+			cfgN.FirstS *= mult
+			cfgN.Seed = cfg.Seed + 100*(ri+1)
+			res = Solve(&cfgN, script, fmt.Sprintf("%s+retry%d", o.Name, mult))
+			r.Res = res
+			r.Stage = fmt.Sprintf("retry%d", mult)
+		}
 		if res.Status == "sat" {
 			r.Status = "proved"
 		} else {
@@ -990,6 +1137,7 @@ func decide(o *Obligation, cfg *SolverCfg, known []KnownFinding, prop string, op
 	}
 	if res.Status == "unsat" {
 		r.Status = "proved"
+		r.Stage = "race"
 		return r
 	}
 	// path split: decide the obligation once per incoming edge of its join block,
@@ -998,6 +1146,7 @@ func decide(o *Obligation, cfg *SolverCfg, known []KnownFinding, prop string, op
 		if rs := decideSplit(o, cfg); rs != nil {
 			r.Status = "proved"
 			r.Res = rs
+			r.Stage = "race-split:" + rs.Stage
 			return r
 		}
 	}
@@ -1039,29 +1188,38 @@ func decide(o *Obligation, cfg *SolverCfg, known []KnownFinding, prop string, op
 		// development aid: no long retries, report the obligation as undecided at once
 		r.Status = "undecided"
 	} else {
-		// retry once, alone, with three times the limit
-		cfg3 := *cfg
-		cfg3.TimeoutS *= 3
-		cfg3.FirstS *= 3
-		res3 := Solve(&cfg3, o.Script(ws...), o.Name+"+retry")
-		if res3.Status == "unsat" {
-			r.Status = "proved"
-			r.Res = res3
-			return r
-		}
-		if res3.Status != "sat" && !cfg.CrossCheck {
-			// last resort before calling it undecided (a loaded machine must not turn a
-			// slow proof into an alarm): once more with eight times the limit
-			cfg8 := *cfg
-			cfg8.TimeoutS *= 8
-			cfg8.FirstS *= 8
-			res8 := Solve(&cfg8, o.Script(ws...), o.Name+"+retry8")
-			if res8.Status == "unsat" {
+		// Not refuted and not proved: before calling it undecided, retry with three
+		// and then eight times the limit, each time with a different base seed and
+		// again per incoming edge (a loaded machine, or an unlucky seed on a query
+		// with quantifiers left in it, must not turn a proof into an alarm; "unsat"
+		// from any seed is a proof, and "sat" from any attempt ends the retries).
+		var res3 *SolveResult
+		for ri, mult := range []int{3, 8} {
+			cfgN := *cfg
+			cfgN.TimeoutS *= mult
+			cfgN.FirstS *= mult
+			cfgN.Seed = cfg.Seed + 100*(ri+1)
+			res3 = Solve(&cfgN, o.Script(ws...), fmt.Sprintf("%s+retry%d", o.Name, mult))
+			if res3.Status == "unsat" {
 				r.Status = "proved"
-				r.Res = res8
+				r.Res = res3
+				r.Stage = fmt.Sprintf("retry%d", mult)
 				return r
 			}
-			res3 = res8
+			if res3.Status == "sat" || cfg.CrossCheck {
+				break
+			}
+			if len(ws) == 0 {
+				// per case: the short stages with the base limit, the race with the long one
+				cfgS := cfgN
+				cfgS.FirstS = cfg.FirstS
+				if rs := decideSplit(o, &cfgS); rs != nil {
+					r.Status = "proved"
+					r.Res = rs
+					r.Stage = fmt.Sprintf("retry%d-split:%s", mult, rs.Stage)
+					return r
+				}
+			}
 		}
 		r.Res = res3
 		r.Status = "undecided"
@@ -1177,6 +1335,7 @@ func writeEvidence(opts *CheckOpts, prog *Program, reports []*FnReport, results 
 			"functions_under_contract": fns,
 			"obligations_by_kind":      byKind,
 			"solver_wins":              wins,
+			"discharged_by_stage":      stageGlobal,
 			"solver_ms_total":          totalMs,
 			"solver_ms_max":            maxMs,
 			"known_findings_reported":  knownLines,
@@ -1261,6 +1420,7 @@ func RunReplayFile(path, verifDir, repoDir string) int {
 }
 
 var boundedGlobal []any
+var stageGlobal map[string]int
 
 func boundedOrEmpty() []any {
 	if boundedGlobal == nil {
@@ -1489,6 +1649,7 @@ func decideSplit(o *Obligation, cfg *SolverCfg) *SolveResult {
 		return nil
 	}
 	var total int64
+	worst := "ground"
 	for ci, mc := range cases {
 		var r0 *SolveResult
 		for lvl := 0; lvl <= 2; lvl++ {
@@ -1507,6 +1668,19 @@ func decideSplit(o *Obligation, cfg *SolverCfg) *SolveResult {
 				break
 			}
 		}
+		for lvl := 1; lvl <= 2 && r0.Status != "unsat"; lvl++ {
+			termMu.Lock()
+			o.caseSub = mc
+			o.seeded, o.ground, o.groundLevel, o.eqProp = true, true, lvl, true
+			s0 := Script(o.asserts(true), true)
+			o.seeded, o.ground, o.groundLevel, o.eqProp = false, false, 0, false
+			o.caseSub = nil
+			termMu.Unlock()
+			if d := os.Getenv("VP_KEEP_SPLIT"); d != "" {
+				os.WriteFile(filepath.Join(d, fmt.Sprintf("%s.case%d.eqground%d.smt2", sanitize(o.Name), ci, lvl)), []byte(s0), 0o644)
+			}
+			r0 = SolveFirstOnly(cfg, s0)
+		}
 		if r0.Status != "unsat" {
 			termMu.Lock()
 			o.caseSub = mc
@@ -1515,7 +1689,13 @@ func decideSplit(o *Obligation, cfg *SolverCfg) *SolveResult {
 			o.seeded = false
 			o.caseSub = nil
 			termMu.Unlock()
+			if d := os.Getenv("VP_KEEP_SPLIT"); d != "" {
+				os.WriteFile(filepath.Join(d, fmt.Sprintf("%s.case%d.seeded.smt2", sanitize(o.Name), ci)), []byte(s0), 0o644)
+			}
 			r0 = SolveFirstOnly(cfg, s0)
+			if r0.Status == "unsat" && worst == "ground" {
+				worst = "seeded"
+			}
 		}
 		if r0.Status != "unsat" {
 			termMu.Lock()
@@ -1523,14 +1703,18 @@ func decideSplit(o *Obligation, cfg *SolverCfg) *SolveResult {
 			s1 := Script(o.asserts(true), true)
 			o.caseSub = nil
 			termMu.Unlock()
+			if d := os.Getenv("VP_KEEP_SPLIT"); d != "" {
+				os.WriteFile(filepath.Join(d, fmt.Sprintf("%s.case%d.full.smt2", sanitize(o.Name), ci)), []byte(s1), 0o644)
+			}
 			r0 = Solve(cfg, s1, o.Name+"+split")
 			if r0.Status != "unsat" {
 				return nil
 			}
+			worst = "race"
 		}
 		total += r0.Ms
 	}
-	return &SolveResult{Status: "unsat", Solver: "z3-new", Ms: total, Output: fmt.Sprintf("unsat (decided by case split, %d cases)", len(cases)), All: map[string]string{"z3-new": "unsat"}}
+	return &SolveResult{Status: "unsat", Solver: "z3-new", Ms: total, Output: fmt.Sprintf("unsat (decided by case split, %d cases)", len(cases)), All: map[string]string{"z3-new": "unsat"}, Stage: worst}
 }
 
 type lemmaResult struct {
